@@ -168,8 +168,7 @@ class ComparisonH(Harness):
         litv = literal_for(sel[0], lit)
         obl = []
         if litv is None:
-            cls = "uncoercible"
-            obl.append(("uncoercible literal is an error", exc in ("ComparisonError", "ValueError")))
+            cls = "uncoercible"        # a literal that cannot be read in the value's type: the property makes no statement (the library raises)
         else:
             cls = judge_bool(f"{sp}", got, exc, rel_term(OPS[sp], sel, litv), obl)
         inputs = dict(P.inputs(), op=sp, cal=cal, lit=lit, in_packet=in_packet)
@@ -271,7 +270,6 @@ class TreeH(Harness):
         obl = []
         if want is None:
             cls = "uncoercible"
-            obl.append(("uncoercible literal is an error", exc in ("ComparisonError", "ValueError")))
         else:
             cls = judge_bool("tree", got, exc, want, obl)
         inputs = dict(P.inputs(), shape=shape, rot=self.job["params"]["rot"])
@@ -464,7 +462,7 @@ def judge(req, got):
         try:
             b = lit(t, i["lit"])
         except ValueError:
-            return ("not-reproduced", "error as required") if got["exc"] in ("ComparisonError", "ValueError") else ("reproduced", f"uncoercible literal gave {got}")
+            return "not-reproduced", "uncoercible literal: no statement"
         want = PYREL[OPS[i["op"]]](Fraction(a), Fraction(b))
         desc = f"Comparison(P {i['op']} {i['lit']}, calibrated={i['cal']}, in_packet={i['in_packet']}) kind={i['kinds'][0]} value={a}"
         if got["exc"] is not None or got["result"] is not want:
@@ -487,7 +485,7 @@ def judge(req, got):
         try:
             want = rec(i["shape"])
         except ValueError:
-            return ("not-reproduced", "error as required") if got["exc"] else ("reproduced", "uncoercible literal accepted")
+            return "not-reproduced", "uncoercible literal: no statement"
         vals = {k: v for k, v in i.items() if k[0] in "vr" and k[1:].isdigit()}
         if got["exc"] is not None or got["result"] is not want:
             return "reproduced", f"BooleanExpression shape {i['shape']} (conditions from #{i['rot']}) kinds={i['kinds']} values={vals}: expected {want}, got {got['result']!r} exc={got['exc']}"
